@@ -18,7 +18,7 @@ type ConsistentHash struct {
 	hash         hash
 	enableWeight bool
 	replicates   int
-	mapValues    map[string]struct{}
+	mapValues    map[string]endpoint.Endpoint // members by hash key, as they were added
 	hashRing     map[uint32]endpoint.Endpoint
 	sortedKeys   []uint32
 }
@@ -75,7 +75,7 @@ func New(enableWeight bool, hashType HashAlgorithmType) *ConsistentHash {
 		hash:         h,
 		enableWeight: enableWeight,
 		replicates:   selector.ConHashVirtualNodes,
-		mapValues:    make(map[string]struct{}),
+		mapValues:    make(map[string]endpoint.Endpoint),
 		hashRing:     make(map[uint32]endpoint.Endpoint),
 	}
 }
@@ -129,7 +129,7 @@ func (c *ConsistentHash) FindInt32(key uint32) (endpoint.Endpoint, bool) {
 func (c *ConsistentHash) Refresh(eps []endpoint.Endpoint) {
 	c.Lock()
 	defer c.Unlock()
-	c.mapValues = make(map[string]struct{}, len(eps))
+	c.mapValues = make(map[string]endpoint.Endpoint, len(eps))
 	c.hashRing = make(map[uint32]endpoint.Endpoint, len(eps))
 	c.sortedKeys = nil
 	for _, ep := range eps {
@@ -153,24 +153,36 @@ func (c *ConsistentHash) addLocked(ep endpoint.Endpoint) error {
 	if _, ok := c.mapValues[ep.HashKey()]; ok {
 		return fmt.Errorf("consistenthash: endpoint %+v already exists", ep)
 	}
+	c.placeLocked(ep)
+	c.mapValues[ep.HashKey()] = ep
+	return nil
+}
+
+// placeLocked puts the virtual nodes of ep on the ring. A position that two members hash to
+// belongs to the member with the smaller hash key, in whatever order they were added: which
+// endpoint serves a hash code depends on the set of members only.
+func (c *ConsistentHash) placeLocked(ep endpoint.Endpoint) {
+	put := func(virtualKey uint32) {
+		owner, taken := c.hashRing[virtualKey]
+		if !taken {
+			c.sortedKeys = append(c.sortedKeys, virtualKey)
+		}
+		if !taken || ep.HashKey() < owner.HashKey() {
+			c.hashRing[virtualKey] = ep
+		}
+	}
 	weight := c.weight(ep.Weight)
 	for i := 0; i < weight; i++ {
 		virtualHost := fmt.Sprintf("%s_%d", ep.HashKey(), i)
 		if c.hash.GetHashType() == KetamaHash {
 			p := md5.Sum([]byte(virtualHost))
 			for k := 0; k < 4; k++ {
-				virtualKey := uint32(p[4*k+3]&0xFF)<<24 | uint32(p[4*k+2]&0xFF)<<16 | uint32(p[4*k+1]&0xFF)<<8 | uint32(p[4*k+0]&0xFF)
-				c.hashRing[virtualKey] = ep
-				c.sortedKeys = append(c.sortedKeys, virtualKey)
+				put(uint32(p[4*k+3]&0xFF)<<24 | uint32(p[4*k+2]&0xFF)<<16 | uint32(p[4*k+1]&0xFF)<<8 | uint32(p[4*k+0]&0xFF))
 			}
 		} else {
-			virtualKey := c.hash.Hash(virtualHost)
-			c.hashRing[virtualKey] = ep
-			c.sortedKeys = append(c.sortedKeys, virtualKey)
+			put(c.hash.Hash(virtualHost))
 		}
 	}
-	c.mapValues[ep.HashKey()] = struct{}{}
-	return nil
 }
 
 // Remove the ep and all the virtual eps from the key
@@ -180,14 +192,9 @@ func (c *ConsistentHash) Remove(ep endpoint.Endpoint) error {
 	if _, ok := c.mapValues[ep.HashKey()]; !ok {
 		return fmt.Errorf("consistenthash: endpoint %+v already removed", ep)
 	}
-	delete(c.mapValues, ep.HashKey())
 	// the endpoint is identified by its hash key; the descriptor passed here may carry another
-	// weight than the one it was added with, so its points are found on the ring, not recomputed
-	for _, virtualKey := range c.sortedKeys {
-		if owner, ok := c.hashRing[virtualKey]; ok && owner.HashKey() == ep.HashKey() {
-			delete(c.hashRing, virtualKey)
-		}
-	}
+	// weight than the one it was added with
+	delete(c.mapValues, ep.HashKey())
 	c.reBuildHashRingLocked()
 	return nil
 }
@@ -230,10 +237,18 @@ func (c *ConsistentHash) weight(w int32) int {
 	return weight
 }
 
+// reBuildHashRingLocked lays the ring out again from the members: a position that a removed
+// member shared with another one falls to that one, as on a ring that never had the removed member.
 func (c *ConsistentHash) reBuildHashRingLocked() {
+	members := make([]string, 0, len(c.mapValues))
+	for key := range c.mapValues {
+		members = append(members, key)
+	}
+	sort.Strings(members)
 	c.sortedKeys = make([]uint32, 0, len(c.hashRing))
-	for vk := range c.hashRing {
-		c.sortedKeys = append(c.sortedKeys, vk)
+	c.hashRing = make(map[uint32]endpoint.Endpoint, len(c.hashRing))
+	for _, key := range members {
+		c.placeLocked(c.mapValues[key])
 	}
 	c.sort()
 }
